@@ -51,10 +51,8 @@ let show_sres (r : sres) : string = match r with
   | S_Fd k -> Printf.sprintf "H:%d" (int_of_nat k)
   | S_BadIndex -> "BADINDEX"
 
-let show_finding (k : finding) : string = match k with
-  | KfDirRestart -> "KfDirRestart" | KfDirAllAfterPartial -> "KfDirAllAfterPartial"
-  | KfDirMixedCursors -> "KfDirMixedCursors" | KfDirSeek -> "KfDirSeek"
-let show_dfinding = show_finding
+(* the type of findings is empty: kf02 always answers None *)
+let show_finding _ : string = "Kf?"
 
 let names_universe = List.map str_of_string ["a"; "b"]
 
@@ -172,7 +170,7 @@ let run_dir (names : str list) (ops : string list) (mode : mode) : string =
   let call c = let (w', r) = wstep !w c in w := w'; r in
   ignore (call (CMkdir (O, dirpath, n_of_int 493)));
   List.iter (fun nm -> ignore (call (CWriteFile (O, dirpath @ str_of_string "/" @ nm, [], n_of_int 420)))) listing;
-  let specs : (dfd * dghost) array Stdlib.ref = ref [||] in
+  let specs : dfd array Stdlib.ref = ref [||] in
   let acc_i : string list Stdlib.ref array Stdlib.ref = ref [||] in
   let acc_s : string list Stdlib.ref array Stdlib.ref = ref [||] in
   let outs = ref [] in
@@ -181,7 +179,7 @@ let run_dir (names : str list) (ops : string list) (mode : mode) : string =
     match parse_dop (split_ws os) with
     | DOpen ->
         let r = call (COpenFile (O, dirpath, N0, N0)) in
-        specs := Array.append !specs [| ({ d_cursor = O; d_closed = false }, ghost0) |];
+        specs := Array.append !specs [| { d_cursor = O; d_closed = false } |];
         acc_i := Array.append !acc_i [| Stdlib.ref [] |];
         acc_s := Array.append !acc_s [| Stdlib.ref [] |];
         if kfmode then emit "-,-"
@@ -194,15 +192,14 @@ let run_dir (names : str list) (ops : string list) (mode : mode) : string =
     | DOp (h, o) ->
         if h >= Array.length !specs then emit (if kfmode then "-,-" else if mode = Full then "m:BADINDEX o:BADINDEX s:BADINDEX cm:BADINDEX co:BADINDEX" else "m=eq o=eq")
         else begin
-          let (d, g) = !specs.(h) in
+          let d = !specs.(h) in
           if kfmode then begin
-            emit (match kfdir listing d g o with None -> "-,-" | Some k -> show_dfinding k ^ "," ^ show_dfinding k);
-            !specs.(h) <- (fst (dir_step listing d o), dghost_step listing d g o)
+            emit "-,-";
+            !specs.(h) <- fst (dir_step listing d o)
           end else begin
-            (if kfdir listing d g o <> None then cut := true);
             let r = call (impl_dcall (nat_of_int h) o) in
             let (d', rs) = dir_step listing d o in
-            !specs.(h) <- (d', dghost_step listing d g o);
+            !specs.(h) <- d';
             let nreq = match o with DReadDir n | DReaddirnames n -> int_of_z n | _ -> 1 in
             (match o with DRewind -> !acc_i.(h) := []; !acc_s.(h) := [] | _ -> ());
             let (exact, cn) = match r with
